@@ -64,14 +64,15 @@ void inv_lazy(Ctx& c) {
 template <class T, size_t N>
 void tinv_case(Ctx& c) {
     Rng g = c.rng(); VP_OPERAND((Tensor<T, N, N>), A);
+    const double OFFD = N <= 16 ? 0.5 : 2.0 / std::sqrt((double)N);     // keeps the condition number of the larger inputs inside the judged range
     for (int it = 0; it < 10; ++it) {
         // unit lower triangular, moderately sized multipliers
-        for (size_t i = 0; i < N; ++i) for (size_t j = 0; j < N; ++j) A.data()[i * N + j] = i == j ? T(1) : (j < i ? (T)g.real(-0.5, 0.5) : T(0));
+        for (size_t i = 0; i < N; ++i) for (size_t j = 0; j < N; ++j) A.data()[i * N + j] = i == j ? T(1) : (j < i ? (T)g.real(-OFFD, OFFD) : T(0));
         launder(A.data());
         { scrub_stack(); Tensor<T, N, N> X = tinverse<InvCompType::SimpleInv, UpLoType::UniLower>(A); launder(X.data()); judge_inverse(c, A.data(), X.data(), N, false, "tinverse<UniLower>");
           for (size_t i = 0; i < N; ++i) for (size_t j = i + 1; j < N; ++j) { ++c.checks; if (X.data()[i * N + j] != T(0)) c.fail("triangular-structure-lost", "tinverse<UniLower> has a non-zero above the diagonal"); } }
         // upper triangular with a dominant diagonal
-        for (size_t i = 0; i < N; ++i) for (size_t j = 0; j < N; ++j) A.data()[i * N + j] = i == j ? (T)((g.next() & 1 ? 1 : -1) * g.real(1.5, 3)) : (j > i ? (T)g.real(-0.5, 0.5) : T(0));
+        for (size_t i = 0; i < N; ++i) for (size_t j = 0; j < N; ++j) A.data()[i * N + j] = i == j ? (T)((g.next() & 1 ? 1 : -1) * g.real(1.5, 3)) : (j > i ? (T)g.real(-OFFD, OFFD) : T(0));
         launder(A.data());
         { scrub_stack(); Tensor<T, N, N> X = tinverse<InvCompType::SimpleInv, UpLoType::Upper>(A); launder(X.data()); judge_inverse(c, A.data(), X.data(), N, false, "tinverse<Upper>");
           for (size_t i = 0; i < N; ++i) for (size_t j = 0; j < i; ++j) { ++c.checks; if (X.data()[i * N + j] != T(0)) c.fail("triangular-structure-lost", "tinverse<Upper> has a non-zero below the diagonal"); } }
